@@ -2,6 +2,7 @@ package main
 
 import (
 	"fmt"
+	"go/ast"
 	"go/types"
 	"sort"
 	"strings"
@@ -304,4 +305,108 @@ func allPkgFunctions(c *Ctx, pkg *ssa.Package) []*ssa.Function {
 	}
 	sort.Slice(all, func(i, j int) bool { return all[i].String() < all[j].String() })
 	return all
+}
+
+// R10d: a suffixed placeholder name is tested against the table of base names (as the official algorithm
+// does), so that it can never coincide with another placeholder's own name.
+// R10e: the bodies of a plural's explicit cases and of its default are fingerprinted alike.
+func ruleR10d(c *Ctx) {
+	p := c.pkg("soymsg")
+	fd := c.mustFunc("soymsg", "setPlaceholderNames")
+	wf := c.mustFunc("soymsg", "writeFingerprint")
+	if p == nil || fd == nil || wf == nil {
+		return
+	}
+	info := p.TypesInfo
+	// the base-name table: the map indexed by the variable holding the generated base name in step 1
+	baseTables := map[types.Object]bool{}
+	var baseVar types.Object
+	ast.Inspect(fd.Body, func(x ast.Node) bool {
+		if as, ok := x.(*ast.AssignStmt); ok && len(as.Lhs) == 1 && len(as.Rhs) == 1 {
+			if call, ok := ast.Unparen(as.Rhs[0]).(*ast.CallExpr); ok {
+				if cal := calleeFunc(call, info); cal != nil && strings.Contains(cal.Name(), "BasePlaceholderName") {
+					if id, ok := as.Lhs[0].(*ast.Ident); ok {
+						baseVar = info.Uses[id]
+						if baseVar == nil {
+							baseVar = info.Defs[id]
+						}
+					}
+				}
+			}
+		}
+		return true
+	})
+	if baseVar == nil {
+		c.fatalf("anchor: the base-name variable of setPlaceholderNames not found")
+		return
+	}
+	ast.Inspect(fd.Body, func(x ast.Node) bool {
+		if ix, ok := x.(*ast.IndexExpr); ok {
+			if id, ok := ast.Unparen(ix.Index).(*ast.Ident); ok && info.Uses[id] == baseVar {
+				if m, ok := ast.Unparen(ix.X).(*ast.Ident); ok {
+					baseTables[info.Uses[m]] = true
+				}
+			}
+		}
+		return true
+	})
+	// the collision test: a comma-ok lookup keyed by a name built with strconv.Itoa
+	n := 0
+	ast.Inspect(fd.Body, func(x ast.Node) bool {
+		ifs, ok := x.(*ast.IfStmt)
+		if !ok || ifs.Init == nil {
+			return true
+		}
+		as, ok := ifs.Init.(*ast.AssignStmt)
+		if !ok || len(as.Rhs) != 1 {
+			return true
+		}
+		ix, ok := ast.Unparen(as.Rhs[0]).(*ast.IndexExpr)
+		if !ok {
+			return true
+		}
+		key, ok := ast.Unparen(ix.Index).(*ast.Ident)
+		if !ok {
+			return true
+		}
+		init := resolveLocalInit(key, fd.Body, info)
+		if !strings.Contains(exprKey(init), "Itoa") {
+			return true
+		}
+		n++
+		m, _ := ast.Unparen(ix.X).(*ast.Ident)
+		c.check(m != nil && baseTables[info.Uses[m]], "R10d", "soymsg.setPlaceholderNames suffix-collision-table", ifs.Pos(),
+			"a suffixed name is skipped when it equals some placeholder's base name",
+			"a suffixed name is tested against "+exprKey(ix.X)+" instead of the base-name table: it can coincide with the name another placeholder gets later, which then overwrites it (empty or shifted placeholder names, hence different ids)")
+		return true
+	})
+	c.floor("R10d", "suffix collision tests", 1, n)
+	// R10e
+	winfo := info
+	ast.Inspect(wf.Body, func(x ast.Node) bool {
+		cc, ok := x.(*ast.CaseClause)
+		if !ok || len(cc.List) != 1 {
+			return true
+		}
+		tv, ok := winfo.Types[cc.List[0]]
+		if !ok {
+			return true
+		}
+		if _, tn, ok := relPkgOfType(tv.Type); !ok || tn != "MsgPluralNode" {
+			return true
+		}
+		args := map[string]bool{}
+		calls := 0
+		ast.Inspect(cc, func(y ast.Node) bool {
+			if call, ok := y.(*ast.CallExpr); ok && calleeFunc(call, winfo) == winfo.Defs[wf.Name] && len(call.Args) == 3 {
+				calls++
+				args[exprKey(call.Args[2])] = true
+			}
+			return true
+		})
+		c.check(calls >= 2 && len(args) == 1 && args["true"], "R10e", "soymsg.writeFingerprint plural-bodies-braced", cc.Pos(),
+			"every plural body (explicit cases and default) is written with braced placeholders",
+			fmt.Sprintf("the plural bodies are fingerprinted with different brace settings %v: the id no longer is the fingerprint of the placeholder string", sortedKeys(args)))
+		return true
+	})
 }
